@@ -65,6 +65,8 @@ pub struct Runner<'a, 'b> {
     pub honour_reopen: bool,
     pub opidx: usize,
     pub dead: bool,
+    /// concrete id each operation's reference resolved to (by op index)
+    pub resolved: Vec<(usize, Uuid)>,
 }
 
 impl Runner<'_, '_> {
@@ -307,16 +309,19 @@ impl Runner<'_, '_> {
         match op {
             AOp::Av { ci, p, payload, cuts } => {
                 let pid = self.known.resolve(*ci, p);
+                self.resolved.push((self.opidx, pid));
                 self.out.line(&format!("# i={} op=av ci={ci} class={} plen={} pkind={}", self.opidx, p.class(), payload.len, PAYLOAD_KINDS[payload.kind as usize]));
                 self.add_version(*ci, pid, payload.bytes(), *cuts).await;
             }
             AOp::Gcv { ci, p } => {
                 let pid = self.known.resolve(*ci, p);
+                self.resolved.push((self.opidx, pid));
                 self.out.line(&format!("# i={} op=gcv ci={ci} class={}", self.opidx, p.class()));
                 self.get_child(*ci, pid).await;
             }
             AOp::As { ci, v, payload, cuts } => {
                 let vid = self.known.resolve(*ci, v);
+                self.resolved.push((self.opidx, vid));
                 // position of v in the chain, counted from the latest (0 = latest), for the histogram
                 let pos = self.known.chain[*ci].iter().rev().position(|x| *x == vid).map(|x| x as i64).unwrap_or(-1);
                 self.out.line(&format!("# i={} op=as ci={ci} class={} pos={pos} chainlen={}", self.opidx, v.class(), self.known.chain[*ci].len()));
@@ -355,6 +360,7 @@ impl Runner<'_, '_> {
             }
             AOp::GcvThenAv { ci, p, payload } => {
                 let pid = self.known.resolve(*ci, p);
+                self.resolved.push((self.opidx, pid));
                 self.out.line(&format!("# i={} op=gcv+av ci={ci} class={}", self.opidx, p.class()));
                 self.get_child(*ci, pid).await;
                 self.add_version(*ci, pid, payload.bytes(), 0).await;
